@@ -3,6 +3,7 @@ import DryocVerif.Model.SecretBox
 import DryocVerif.Model.Sign
 import DryocVerif.Model.EncodingStruct
 import DryocVerif.Proofs.EncodingExtra
+import DryocVerif.Proofs.EncodingVecExtra
 import DryocVerif.Properties.C01
 /-
 C16 — byte and serde encodings round-trip and enforce fixed lengths.
@@ -11,7 +12,17 @@ Success AND failure halves: `…_ok_iff` / `fixed_len_strict` say when decoding 
 with what; `…_err_iff` say when it fails; `…_never_panics` exclude the third outcome.
 Whole objects: `from_bytes ∘ to_bytes = id` and `de ∘ ser = id` on boxes, sealed boxes and
 signed messages, and the decoded object still decrypts / verifies.
-Defect E13 (pre-fix visitors) is kept as counter-models `deFixedOld`, `deHeapOld`.
+Defect E13 (pre-fix visitors) is kept as counter-models `deFixedOld`, `deHeapOld`, `deLockedArrOld`.
+
+SCOPE of the fixed-length statements: `deBox` / `deSigned` hard-wire `deFixed 16 / 64 / 32`, i.e. the visitors of
+/repo/src/bytes_serde.rs, which is what the derived `Deserialize` uses when the field's container TYPE carries the
+length (`StackByteArray<N>`, `HeapByteArray<N>`, `Locked<…>`).  The structs are generic, and `Vec<u8>` is a
+`ByteArray<N>` for every `N` too: for `DryocSecretBox<Vec<u8>, _>`, `SignedMessage<Vec<u8>, _>`, … serde's OWN
+`Vec<u8>` visitor is used, which has no length check.  The last section ("`Vec<u8>` as a fixed-length container")
+models that cell (`deVecFixed`), shows it is NOT strict, makes the struct round trips parametric in the container
+kind, and states what the object API then does with a tag / signature of another length (panic or prefix view).
+The serialisers `Model.SecretBox.toBytes`, `Model.Sign.toBytes`, `intoVec` are TOTAL; the Rust `to_bytes` panics on
+a tag / signature container of another length: `toBytesRaw`, `signedToBytesRaw`, `intoVecRaw` in the same section.
 -/
 namespace DryocVerif.Properties.C16
 open DryocVerif DryocVerif.Model.Encoding
@@ -127,7 +138,10 @@ example : Model.SecretBox.fromBytes (zeros 15) = .err ∧ Model.SecretBox.fromBy
     deFixed 24 (.bytes (zeros 23)) = .err ∧ deFixed 24 (.seq (zeros 24)) ≠ .err := by decide
 
 /-- `VecBox::into_vec` (resize, `rotate_right(16)`, copy the tag in front) produces the same
-bytes as `to_bytes` / `to_vec` (re-exported from C01) -/
+bytes as `to_bytes` / `to_vec` (re-exported from C01).  About the TOTAL models: it holds for every tag length only
+because `toBytes` and `intoVec` both just concatenate.  The Rust functions agree when the tag has 16 bytes (always
+the case for `VecBox`, whose `Mac` is `StackByteArray<16>`); the code-shaped statement, with that hypothesis, is
+`intoVecRaw_eq_toBytesRaw`, and `intoVecRaw_ne_toBytesRaw_of_long` shows the hypothesis is needed. -/
 theorem intoVec_eq_toBytes (b : Model.SecretBox.Box) (hepk : b.epk = none) :
     Model.SecretBox.intoVec b = Model.SecretBox.toBytes b :=
   Properties.C01.forms_agree_intoVec_toBytes b hepk
@@ -299,4 +313,261 @@ example : Proofs.EncodingExtra.deFixedOld 24 (.seq [1, 2, 3]) = .ok ([1, 2, 3] +
 example : deFixed 24 (.seq [1, 2, 3]) = .err ∧ deFixed 24 (.seq (List.replicate 25 7)) = .err ∧
     deFixed 24 (.seq (List.replicate 24 7)) = .ok (List.replicate 24 7) ∧ deHeap (.seq []) = .ok [] := by decide
 
+/-! ### `Vec<u8>` as a fixed-length container (`Model/EncodingVec.lean`, `Model/ArrayView.lean`, `Model/ObjectView.lean`) -/
+
+section VecContainers
+open DryocVerif.Model.EncodingVec DryocVerif.Model.SecretBox
+
+/-- **serde's `Vec<u8>` visitor in a `ByteArray<n>` position is NOT strict**: for every element sequence of a wrong
+length `fixed_len_strict` fails — the sequence is accepted as it is (`deVecFixed sd n (.seq es) = .ok es`).
+`sd` = self-describing format (serde_json) or not (bincode); `n` is ignored by the visitor. -/
+theorem deVecFixed_not_strict (sd : Bool) (n : Nat) (es : Bytes) (h : es.length ≠ n) :
+    deVecFixed sd n (.seq es) = .ok es ∧
+    ¬ (∀ a, deVecFixed sd n (.seq es) = .ok a ↔ (Enc.seq es).payload.length = n ∧ a = (Enc.seq es).payload) :=
+  ⟨rfl, Proofs.EncodingVecExtra.deVecFixed_not_strict sd n es h⟩
+
+theorem deVecFixed_never_panics (sd : Bool) (n : Nat) (enc : Enc) : deVecFixed sd n enc ≠ .panic :=
+  Proofs.EncodingVecExtra.deVecFixed_never_panics sd n enc
+
+/-- `de ∘ ser = id` for the `Vec<u8>` cell (serde serialises a `Vec<u8>` as an element sequence), any length -/
+theorem deVecFixed_serVec (sd : Bool) (n : Nat) (bs : Bytes) : deVecFixed sd n (serVec bs) = .ok bs := rfl
+
+/-- the kind-parametric struct codecs specialise to the existing ones for typed containers (by `rfl`) -/
+theorem structK_typed (sd : Bool) (e : EncBox) (b : Box) (es : EncSigned) (sm : Bytes × Bytes) :
+    deBoxK .typed .typed .typed sd e = deBox e ∧ serBoxK .typed .typed .typed b = serBox b ∧
+    deSignedK .typed .typed sd es = deSigned es ∧ serSignedK .typed .typed sm = serSigned sm :=
+  ⟨rfl, rfl, rfl, rfl⟩
+
+/-- **`de ∘ ser = id` on a box struct, for every choice of container kinds** (`kE`, `kT`, `kD`: ephemeral key, tag,
+data; `.typed` = stack / heap / locked, `.vec` = `Vec<u8>`) and both kinds of format: the length hypotheses are
+needed ONLY for the fields held in a typed container — a `Vec<u8>` field round-trips at any length. -/
+theorem deBoxK_serBoxK (kE kT kD : Kind) (sd : Bool) (b : Box) (ht : kT = .typed → b.tag.length = 16)
+    (he : kE = .typed → ∀ e, b.epk = some e → e.length = 32) :
+    deBoxK kE kT kD sd (serBoxK kE kT kD b) = .ok b :=
+  Proofs.EncodingVecExtra.deBoxK_serBoxK kE kT kD sd b ht he
+
+theorem deSignedK_serSignedK (kS kM : Kind) (sd : Bool) (sm : Bytes × Bytes)
+    (h : kS = .typed → sm.1.length = 64) : deSignedK kS kM sd (serSignedK kS kM sm) = .ok sm :=
+  Proofs.EncodingVecExtra.deSignedK_serSignedK kS kM sd sm h
+
+/-- non-vacuity witnesses: an all-`Vec` box with a 3-byte tag round-trips; a typed tag needs its 16 bytes -/
+example : deBoxK .vec .vec .vec true (serBoxK .vec .vec .vec ⟨none, [1, 2, 3], [9]⟩) = .ok ⟨none, [1, 2, 3], [9]⟩ ∧
+    deBoxK .vec .typed .vec true (serBoxK .vec .typed .vec ⟨none, zeros 16, [9]⟩) = .ok ⟨none, zeros 16, [9]⟩ ∧
+    deBoxK .vec .typed .vec true (serBoxK .vec .typed .vec ⟨none, [1, 2, 3], [9]⟩) = .err := by decide
+
+/-- a `Vec<u8>` tag field accepts EVERY element sequence (here: no ephemeral key; `data` whatever its field decodes
+to) … -/
+theorem deBoxK_vecTag_seq (kE kD : Kind) (sd : Bool) (es : Bytes) (d : Enc) (data : Bytes)
+    (hd : deData kD sd d = .ok data) : deBoxK kE .vec kD sd ⟨none, .seq es, d⟩ = .ok ⟨none, es, data⟩ :=
+  Proofs.EncodingVecExtra.deBoxK_vecTag_seq kE kD sd es d data hd
+
+/-- … where a typed tag field of the same struct rejects every payload that is not 16 bytes long -/
+theorem deBoxK_typedTag_err (kE kD : Kind) (sd : Bool) (t d : Enc) (h : t.payload.length ≠ 16) :
+    deBoxK kE .typed kD sd ⟨none, t, d⟩ = .err :=
+  Proofs.EncodingVecExtra.deBoxK_typedTag_err kE kD sd t d h
+
+/-- **consequence (decode, then use), short tag**: a tag of FEWER than 16 elements in a `DryocSecretBox<Vec<u8>, _>`
+is decoded without complaint, and `decrypt` on the decoded object PANICS (`self.tag.as_array()`,
+`Model.ObjectView.objDecryptView`) — for every instantiation of the primitives, nonce and key.  The length check
+that the typed visitors perform at decode time does not exist for this instantiation; the failure moves to the
+first use and changes from `Err` to a panic. -/
+theorem vecTag_short_decodes_then_decrypt_panics (P : Prims) (kE kD : Kind) (sd : Bool) (es : Bytes) (d : Enc)
+    (data nonce key : Bytes) (hd : deData kD sd d = .ok data) (h : es.length < 16) :
+    ∃ b, deBoxK kE .vec kD sd ⟨none, .seq es, d⟩ = .ok b ∧ b.tag = es ∧
+      Model.ObjectView.objDecryptView P b nonce key = .panic :=
+  Proofs.EncodingVecExtra.vecTag_short_decodes_then_decrypt_panics P kE kD sd es d data nonce key hd h
+
+/-- **consequence, long tag**: a tag of MORE than 16 elements is decoded too, and `decrypt` uses its first 16 bytes —
+the result is that of the box with the truncated tag (the trailing elements are never looked at) -/
+theorem vecTag_long_decodes_then_decrypt_prefix (P : Prims) (kE kD : Kind) (sd : Bool) (es : Bytes) (d : Enc)
+    (data nonce key : Bytes) (hd : deData kD sd d = .ok data) (h : 16 ≤ es.length)
+    (hn : nonce.length = 24) (hk : key.length = 32) :
+    ∃ b, deBoxK kE .vec kD sd ⟨none, .seq es, d⟩ = .ok b ∧ b.tag = es ∧
+      Model.ObjectView.objDecryptView P b nonce key = objDecrypt P ⟨none, es.take 16, data⟩ nonce key :=
+  Proofs.EncodingVecExtra.vecTag_long_decodes_then_decrypt_prefix P kE kD sd es d data nonce key hd h hn hk
+
+/-- the same for `SignedMessage<Vec<u8>, _>`: a 63-element signature decodes and `verify` panics -/
+theorem vecSig_short_decodes_then_verify_panics (H : Bytes → Bytes) (kM : Kind) (sd : Bool) (es : Bytes) (m : Enc)
+    (msg pk : Bytes) (hm : deData kM sd m = .ok msg) (h : es.length < 64) :
+    ∃ sm, deSignedK .vec kM sd ⟨.seq es, m⟩ = .ok sm ∧ sm.1 = es ∧
+      Model.ObjectView.objVerifyMessage H sm.1 sm.2 pk = .panic :=
+  Proofs.EncodingVecExtra.vecSig_short_decodes_then_verify_panics H kM sd es m msg pk hm h
+
+/-- non-vacuity witnesses, for ANY primitives `P`: a 15-element tag
+decodes and `decrypt` panics; a 17-element one decodes and is used through its first 16 bytes; the hypothesis `hd` is
+met by a JSON array for the data -/
+example (P : Prims) :
+    deData .vec true (.seq [7, 7]) = .ok [7, 7] ∧
+    (∃ b, deBoxK .vec .vec .vec true ⟨none, .seq (zeros 15), .seq [7, 7]⟩ = .ok b ∧ b.tag = zeros 15 ∧
+      Model.ObjectView.objDecryptView P b (zeros 24) (zeros 32) = .panic) ∧
+    (∃ b, deBoxK .vec .vec .vec true ⟨none, .seq (zeros 17), .seq [7, 7]⟩ = .ok b ∧ b.tag = zeros 17 ∧
+      Model.ObjectView.objDecryptView P b (zeros 24) (zeros 32)
+        = objDecrypt P ⟨none, (zeros 17).take 16, [7, 7]⟩ (zeros 24) (zeros 32)) :=
+  ⟨rfl, vecTag_short_decodes_then_decrypt_panics P _ _ _ _ _ _ _ _ rfl (by decide),
+    vecTag_long_decodes_then_decrypt_prefix P _ _ _ _ _ _ _ _ rfl (by decide) (by decide) (by decide)⟩
+
+/-! #### the serialisers, code-shaped -/
+
+/-- **`DryocSecretBox::to_bytes` / `DryocBox::to_bytes` (`to_vec`), with the panicking branches**
+(`s[..16].copy_from_slice(tag)`, …): `Ok` of exactly the total model's bytes iff the tag container holds exactly 16
+bytes and the ephemeral key (if present) exactly 32; a PANIC for every other length. -/
+theorem toBytesRaw_eq (b : Box) :
+    toBytesRaw b = if b.tag.length = 16 ∧ (∀ e, b.epk = some e → e.length = 32) then .ok (toBytes b)
+      else .panic :=
+  Proofs.EncodingVecExtra.toBytesRaw_eq b
+
+/-- `SignedMessage::to_bytes` likewise: `Ok (sig ‖ m)` iff the signature container holds exactly 64 bytes -/
+theorem signedToBytesRaw_eq (sm : Bytes × Bytes) :
+    signedToBytesRaw sm = if sm.1.length = 64 then .ok (Model.Sign.toBytes sm) else .panic :=
+  Proofs.EncodingVecExtra.signedToBytesRaw_eq sm
+
+/-- `into_vec` (`self.data[0..16].copy_from_slice(self.tag.as_array())`): a panic iff the tag container is shorter
+than 16 bytes, otherwise the FIRST 16 bytes of the tag, then the data.  (The Rust `impl` exists only for
+`Mac = StackByteArray<16>`; see the docstring of `Model.EncodingVec.intoVecRaw`.) -/
+theorem intoVecRaw_eq (b : Box) :
+    intoVecRaw b = if b.tag.length < 16 then .panic else .ok (b.tag.take 16 ++ b.data) :=
+  Proofs.EncodingVecExtra.intoVecRaw_eq b
+
+/-- under the length hypotheses the code-shaped serialisers ARE the total ones -/
+theorem serialisersRaw_exact (b : Box) (sm : Bytes × Bytes) (ht : b.tag.length = 16)
+    (he : ∀ e, b.epk = some e → e.length = 32) (hs : sm.1.length = 64) :
+    toBytesRaw b = .ok (toBytes b) ∧ intoVecRaw b = .ok (intoVec b) ∧
+    signedToBytesRaw sm = .ok (Model.Sign.toBytes sm) :=
+  ⟨Proofs.EncodingVecExtra.toBytesRaw_exact b ht he, Proofs.EncodingVecExtra.intoVecRaw_exact b ht,
+    Proofs.EncodingVecExtra.signedToBytesRaw_exact sm hs⟩
+
+/-- **`into_vec` = `to_bytes`, code-shaped, with the hypothesis that `intoVec_eq_toBytes` (total models) hides**:
+no ephemeral key AND a 16-byte tag … -/
+theorem intoVecRaw_eq_toBytesRaw (b : Box) (hepk : b.epk = none) (ht : b.tag.length = 16) :
+    intoVecRaw b = toBytesRaw b :=
+  Proofs.EncodingVecExtra.intoVecRaw_eq_toBytesRaw b hepk ht
+
+/-- … and it is needed: for a longer tag container `to_bytes` panics where the statements of `into_vec` truncate -/
+theorem intoVecRaw_ne_toBytesRaw_of_long (b : Box) (ht : 16 < b.tag.length) :
+    toBytesRaw b = .panic ∧ intoVecRaw b = .ok (b.tag.take 16 ++ b.data) :=
+  Proofs.EncodingVecExtra.intoVecRaw_ne_toBytesRaw_of_long b ht
+
+/-- non-vacuity witnesses / the four kinds of outcome, evaluated -/
+example : toBytesRaw ⟨none, zeros 16, [1, 2]⟩ = .ok (zeros 16 ++ [1, 2]) ∧
+    toBytesRaw ⟨none, zeros 15, [1, 2]⟩ = .panic ∧ toBytesRaw ⟨none, zeros 17, [1, 2]⟩ = .panic ∧
+    toBytesRaw ⟨some (zeros 32), List.replicate 16 5, [1, 2]⟩ = .ok (zeros 32 ++ List.replicate 16 5 ++ [1, 2]) ∧
+    toBytesRaw ⟨some (zeros 31), List.replicate 16 5, [1, 2]⟩ = .panic ∧
+    intoVecRaw ⟨none, zeros 15, [1, 2]⟩ = .panic ∧
+    intoVecRaw ⟨none, List.replicate 16 5 ++ [9], [1, 2]⟩ = .ok (List.replicate 16 5 ++ [1, 2]) ∧
+    signedToBytesRaw (zeros 64, [1]) = .ok (zeros 64 ++ [1]) ∧ signedToBytesRaw (zeros 65, [1]) = .panic ∧
+    signedToBytesRaw (zeros 63, [1, 2]) = .panic := by decide
+
+/-- **`to_bytes` of a signed message = the combined `crypto_sign` output**: for the detached signature that
+`SigningKeyPair::sign` stores next to the message, `to_bytes` (total and code-shaped) gives exactly what
+`crypto_sign` writes into a buffer of `message.len() + 64` bytes -/
+theorem signed_toBytes_eq_signCombined (H : Bytes → Bytes) (msg sk : Bytes) :
+    Model.Sign.signCombined H (msg.length + 64) msg sk
+        = .ok (Model.Sign.toBytes (Model.Sign.signDetached H msg sk false, msg)) ∧
+    signedToBytesRaw (Model.Sign.signDetached H msg sk false, msg)
+        = Model.Sign.signCombined H (msg.length + 64) msg sk :=
+  Proofs.EncodingVecExtra.signed_toBytes_eq_signCombined H msg sk
+
+/-! #### `from_parts` / `into_parts`, pair structs -/
+
+/-- `from_parts` and `into_parts` are inverse to each other — BY `rfl` ON THE RECORD: they move the fields in and
+out and examine nothing.  In particular `from_parts` is a second way (next to serde) to put a `Vec<u8>` of any
+length into the `tag` / `signature` position. -/
+theorem fromParts_intoParts (b : Box) (tag data : Bytes) (epk : Option Bytes) (sm : Bytes × Bytes) :
+    fromParts (intoParts b).1 (intoParts b).2.1 (intoParts b).2.2 = b ∧
+    intoParts (fromParts tag data epk) = (tag, data, epk) ∧
+    signedFromParts (signedIntoParts sm).1 (signedIntoParts sm).2 = sm ∧
+    signedIntoParts (signedFromParts tag data) = (tag, data) :=
+  ⟨rfl, rfl, rfl, rfl⟩
+
+/-- **`de ∘ ser = id` on the two-field structs** `KeyPair { public_key, secret_key }`,
+`SigningKeyPair { public_key, secret_key }`, `Kdf { main_key, context }`, `Session { rx_key, tx_key }` with typed
+containers (fields in declaration order through `deFixed n`, `deFixed m`) -/
+theorem dePair_serPair (n m : Nat) (p : Bytes × Bytes) (h1 : p.1.length = n) (h2 : p.2.length = m) :
+    dePair n m (serPair p) = .ok p :=
+  Proofs.EncodingVecExtra.dePair_serPair n m p h1 h2
+
+/-- the four instances, with their lengths: key pair (32, 32), signing key pair (32, 64), kdf (32, 8), session (32, 32) -/
+theorem pair_roundtrips (pk sk spk ssk mk ctx rx tx : Bytes) (h1 : pk.length = 32) (h2 : sk.length = 32)
+    (h3 : spk.length = 32) (h4 : ssk.length = 64) (h5 : mk.length = 32) (h6 : ctx.length = 8)
+    (h7 : rx.length = 32) (h8 : tx.length = 32) :
+    dePair 32 32 (serPair (pk, sk)) = .ok (pk, sk) ∧ dePair 32 64 (serPair (spk, ssk)) = .ok (spk, ssk) ∧
+    dePair 32 8 (serPair (mk, ctx)) = .ok (mk, ctx) ∧ dePair 32 32 (serPair (rx, tx)) = .ok (rx, tx) :=
+  ⟨dePair_serPair _ _ _ h1 h2, dePair_serPair _ _ _ h3 h4, dePair_serPair _ _ _ h5 h6, dePair_serPair _ _ _ h7 h8⟩
+
+/-- exact success condition on ARBITRARY field encodings, and no panic -/
+theorem dePair_ok_iff (n m : Nat) (e : EncPair) (p : Bytes × Bytes) :
+    dePair n m e = .ok p ↔
+      e.fst.payload.length = n ∧ e.snd.payload.length = m ∧ p = (e.fst.payload, e.snd.payload) :=
+  Proofs.EncodingVecExtra.dePair_ok_iff n m e p
+
+theorem dePair_never_panics (n m : Nat) (e : EncPair) : dePair n m e ≠ .panic :=
+  Proofs.EncodingVecExtra.dePair_never_panics n m e
+
+/-- with `Vec<u8>` fields the pair round-trips at any length (and, as for the boxes, nothing is checked) -/
+theorem dePairK_serPairK (k₁ k₂ : Kind) (sd : Bool) (n m : Nat) (p : Bytes × Bytes)
+    (h1 : k₁ = .typed → p.1.length = n) (h2 : k₂ = .typed → p.2.length = m) :
+    dePairK k₁ k₂ sd n m (serPairK k₁ k₂ p) = .ok p :=
+  Proofs.EncodingVecExtra.dePairK_serPairK k₁ k₂ sd n m p h1 h2
+
+/-- non-vacuity witnesses: a signing key pair round-trips; a 63-byte secret key is refused by the typed visitor and
+accepted by the `Vec<u8>` one; a kdf context given as a JSON array decodes -/
+example : dePair 32 64 (serPair (zeros 32, zeros 64)) = .ok (zeros 32, zeros 64) ∧
+    dePair 32 64 ⟨.bytes (zeros 32), .seq (zeros 63)⟩ = .err ∧
+    dePairK .typed .vec true 32 64 ⟨.bytes (zeros 32), .seq (zeros 63)⟩ = .ok (zeros 32, zeros 63) ∧
+    dePair 32 8 ⟨.bytes (zeros 32), .seq [1, 2, 3, 4, 5, 6, 7, 8]⟩ = .ok (zeros 32, [1, 2, 3, 4, 5, 6, 7, 8]) := by
+  decide
+
+end VecContainers
+
+/-! ### E13, continued: the pre-fix `Locked<HeapByteArray<N>>` visitor (`git -C /repo show 791ff25^:src/bytes_serde.rs`) -/
+
+/-- the OLD visitor decided on the deserializer's SIZE HINT: without a hint (serde_json) EVERY element sequence was
+refused, the correct ones included (so `de ∘ ser` failed on JSON arrays) … -/
+theorem deLockedArrOld_nohint_rejects_all (n : Nat) (hn : n ≠ 0) (init es : Bytes) :
+    Proofs.EncodingVecExtra.deLockedArrOld n none init (.seq es) = .err :=
+  Proofs.EncodingVecExtra.deLockedArrOld_nohint_rejects_all n hn init es
+
+/-- … with a hint equal to `n` and FEWER elements it accepted, leaving the tail of the freshly generated (random)
+array `init` in place — so it was not strict … -/
+theorem deLockedArrOld_short_accepts (n : Nat) (init es : Bytes) (hi : init.length = n) (h : es.length ≤ n) :
+    Proofs.EncodingVecExtra.deLockedArrOld n (some n) init (.seq es) = .ok (es ++ init.drop es.length) :=
+  Proofs.EncodingVecExtra.deLockedArrOld_short_accepts n init es hi h
+
+theorem deLockedArrOld_not_strict (n : Nat) (init es : Bytes) (hi : init.length = n) (h : es.length < n) :
+    ¬ (∀ a, Proofs.EncodingVecExtra.deLockedArrOld n (some n) init (.seq es) = .ok a ↔
+        (Enc.seq es).payload.length = n ∧ a = (Enc.seq es).payload) :=
+  Proofs.EncodingVecExtra.deLockedArrOld_not_strict n init es hi h
+
+/-- … and with MORE elements it indexed out of bounds: a panic -/
+theorem deLockedArrOld_long_panics (n : Nat) (init es : Bytes) (hi : init.length = n) (h : n < es.length) :
+    Proofs.EncodingVecExtra.deLockedArrOld n (some n) init (.seq es) = .panic :=
+  Proofs.EncodingVecExtra.deLockedArrOld_long_panics n init es hi h
+
+/-- the three symptoms on a 4-byte array whose fresh contents are `[9, 9, 9, 9]`, vs the repaired visitor -/
+example : Proofs.EncodingVecExtra.deLockedArrOld 4 none [9, 9, 9, 9] (.seq [1, 2, 3, 4]) = .err ∧
+    Proofs.EncodingVecExtra.deLockedArrOld 4 (some 4) [9, 9, 9, 9] (.seq [1, 2]) = .ok [1, 2, 9, 9] ∧
+    Proofs.EncodingVecExtra.deLockedArrOld 4 (some 4) [9, 9, 9, 9] (.seq [1, 2, 3, 4, 5]) = .panic ∧
+    deFixed 4 (.seq [1, 2, 3, 4]) = .ok [1, 2, 3, 4] ∧ deFixed 4 (.seq [1, 2]) = .err ∧
+    deFixed 4 (.seq [1, 2, 3, 4, 5]) = .err := by decide
+
 end DryocVerif.Properties.C16
+
+section AxiomCheck
+open DryocVerif.Properties.C16
+#print axioms deVecFixed_not_strict
+#print axioms deBoxK_serBoxK
+#print axioms deSignedK_serSignedK
+#print axioms vecTag_short_decodes_then_decrypt_panics
+#print axioms vecTag_long_decodes_then_decrypt_prefix
+#print axioms vecSig_short_decodes_then_verify_panics
+#print axioms toBytesRaw_eq
+#print axioms signedToBytesRaw_eq
+#print axioms intoVecRaw_eq
+#print axioms intoVecRaw_eq_toBytesRaw
+#print axioms signed_toBytes_eq_signCombined
+#print axioms fromParts_intoParts
+#print axioms pair_roundtrips
+#print axioms dePair_ok_iff
+#print axioms deLockedArrOld_short_accepts
+#print axioms deLockedArrOld_long_panics
+end AxiomCheck
